@@ -6,7 +6,10 @@ from fractions import Fraction
 
 PROP = "C18"
 # kernels regenerated from /repo's source (tools/py2lean.py) vs the hand model, exhaustive small scope, inside Lean
-TWIN_CHECKS = [{"op": "twin.sparse_exhaustive", "k": 4}]
+TWIN_CHECKS = [{"op": "twin.sparse_exhaustive", "k": 4},
+               # arr_union / arr_intersect (-> arr_unique) vs Dist.arrUnion / arrIntersect: every pair of lists (unsorted,
+               # duplicates included) over {0,1,2} up to length 4
+               {"op": "twin.arr_exhaustive", "n": 4, "k": 3}]
 RULE = ("kind 'dist': triples (x, y, z) of non-negative vectors, dimension 1..64, each = integer base vector "
         "(dense / sparse / single-entry) times a scale in [1e-3, 1e3]; >= 30 % of the pairs (x, y) are proportional "
         "(same base, different scale), others have disjoint supports, nested supports or are independent; every "
